@@ -114,6 +114,14 @@ class P(b1.Plugin):
             src = head if v.shape == "unit" else ("%s(%s)" % (head, ", ".join(args)) if v.shape == "tuple" else
                                                   "%s { %s }" % (head, ", ".join("%s: %s" % (f.name, a) for f, a in zip(v.fields, args))))
             type_expr = (self.expr_id("@" + td.name, src), src)
+            if rng.random() < 0.4:
+                # a bare literal as the type-level expression: educe converts it with Into, so the type needs `From<literal type>`;
+                # the conversion is written by hand here and builds the value above from the literal it receives
+                lit, lty, probe = rng.choice([("7", "i32", "v == 7"), ('"anon"', "&'static str", 'v == "anon"'), ("true", "bool", "v"),
+                                              ("'c'", "char", "v == 'c'"), ("2.5", "f64", "v == 2.5"), ('b"ab"', "&'static [u8; 2]", "v[1] == b'b'"),
+                                              ("7u8", "u8", "v == 7"), ("0x10", "i32", "v == 16")])      # (`-3` is a negation, not a literal)
+                td.from_impl = "impl From<%s> for %s { fn from(v: %s) -> Self { assert!(%s); %s } }" % (lty, td.name, lty, probe, src)
+                type_expr = (self.expr_id("@" + td.name, "<%s as From<%s>>::from(%s)" % (td.name, lty, lit)), lit)
         elif kind == "union":
             v = td.variants[0]
             ci = rng.randrange(len(v.fields))
@@ -150,7 +158,7 @@ class P(b1.Plugin):
             v.extra_json = {"dflag": v.dflag}
         noise = [t for t in ("Debug", "PartialEq") if kind != "union" and rng.random() < 0.35]
         gen.finalize_attrs(rng, td, noise)
-        td.extra_items = [self.fp_fn(td)]
+        td.extra_items = [self.fp_fn(td)] + ([td.from_impl] if getattr(td, "from_impl", None) else [])
         return td
 
     def fp_fn(self, td):
